@@ -84,6 +84,13 @@ def run(ctx):
             ops = t.setup_ops(c) + [("W", c["key"], c["mask"]), ("K", k2), ("W", key2, None), ("K", k3), ("W", c["key"], 40),
                                     ("K", c["kbpk"]), ("W", key2, None)]
             seqs.append((c["kbpk"], ops))
+    # ... and with the header's version switched between wraps (blocks untouched), under a KBPK valid for every version
+    for v1, v2 in (("B", "D"), ("A", "D"), ("D", "B"), ("C", "D"), ("D", "A"), ("B", "C")):
+        for prof in ("few", "boundary"):
+            c = t.gen_case(rng, version=v1, profile=prof, keylen=16, mask=None)
+            c["kbpk"] = rng.randbytes(rng.choice((16, 24)))
+            ops = t.setup_ops(c) + [("S",), ("W", c["key"], None), ("F", 0, v2), ("W", c["key"], None), ("S",), ("F", 0, v1), ("W", c["key"], 30)]
+            seqs.append((c["kbpk"], ops))
     both, mops = t.run_both(seqs)
     for (kbpk, ops), (impl, model) in zip(seqs, both):
         if impl != model:
